@@ -62,13 +62,13 @@ CHECKS = {
     'C02': {
         'text': 'Unbounded proof: every board returned by generate_moves (both modes) is succ_correct: either succ_ok(parent, s, from, to) -- placement = after_board incl. en-passant victim and promotion piece, side swapped, en-passant target set exactly after a double step, both king squares, all four rights (lost iff king moves / rook leaves corner / something lands on corner), last_move names the move, promotion piece present iff a pawn reaches the last rank (own colour, Q/N/B/R) -- with the mover\'s king not attacked, or castle_succ_ok (king two squares, rook hop, both rights gone, no target, no promotion letter). The precondition says nothing about the parent\'s last_move / pawn_promotion / order_heuristic, so the claim holds along any chain.',
         'design_ref': 'DESIGN.md 4/C02',
-        'note': 'Trusted as for C01. The printed text (Display for Point, PieceKind::alg, format!) is not under contract: the thorough tier cross-checks it natively against the oracle; legal_position closure under successors is not yet machine-checked (listed).',
+        'note': 'Trusted as for C01. The printed text (Display for Point, PieceKind::alg, format!) is not under contract: the thorough tier cross-checks it natively against the oracle; legal_position closure under successors is machine-checked (lemma_step_closure / lemma_castle_closure / lemma_chain_closure, and generate_moves ensures legal_position of every returned board).',
         'technique': 'Verus postcondition succ_ok / castle_succ_ok at every push site of the real successor builders',
     },
     'C13': {
         'text': 'Unbounded proof: with CapturesOnly, generate_moves returns exactly the legal capturing moves (en passant included): sound, complete, duplicate-free against legal_move(.., CapturesOnly), and every successor is succ_correct (promotion on a capture to the last rank, stale en-passant target cleared). The mode is symbolic in every callee, so both modes are proved by the same units.',
         'design_ref': 'DESIGN.md 4/C13',
-        'note': 'Trusted as for C01. Chains: each successor satisfies succ_ok, whose en-passant clause makes a stale target impossible; the closure of legal_position under successors is not yet machine-checked; quiesce itself (search) is not under contract.',
+        'note': 'Trusted as for C01. Chains: each successor satisfies succ_ok, whose en-passant clause makes a stale target impossible; the closure of legal_position under successors is machine-checked (closure lemmas; generate_moves ensures legal_position of every returned board in both modes); quiesce itself (search) is not under contract.',
         'technique': 'the C01/C02 contracts instantiated with the capture-only mode',
     },
     'C05': {
@@ -78,9 +78,9 @@ CHECKS = {
         'technique': 'Verus: key_ok as a representation invariant preserved by every mutator, every successor builder and make_move',
     },
     'C10': {
-        'text': 'Unbounded proof for the table operations: new/clear give the empty table, add_board_to_draw_table changes exactly one count by one (frame over all other keys), is_threefold_repetition leaves the table unchanged and answers exactly "already seen at least twice". Over vstd\'s HashMap model.',
+        'text': 'Unbounded proof for the table operations: new/clear give the empty table, add_board_to_draw_table changes exactly one count by one (frame over all other keys), is_threefold_repetition leaves the table unchanged and answers exactly "already seen at least twice", remove_board_from_draw_table lowers exactly the count of a present key by one and touches nothing else (same key set), and lemma_add_then_remove: add followed by remove restores every count (the search\'s walk-and-back-out). Over vstd\'s HashMap model.',
         'design_ref': 'DESIGN.md 4/C10',
-        'note': 'The position handler (clear + play_out_position) is string code outside both verifiers: BOUNDED native stand-in only (seeded random games incl. repetitions: the table must equal the exact occurrence counts), labelled bounded, not counted. The whole search clause (score never below zero) is not decided (search is outside both verifiers); positions are identified with 64-bit keys (collisions not excluded); remove_board_from_draw_table is outside the Verus subset (Some(&val) pattern).',
+        'note': 'The position handler (clear + play_out_position) is string code outside both verifiers: BOUNDED native stand-in only (seeded random games incl. repetitions: the table must equal the exact occurrence counts), labelled bounded, not counted. The whole search clause (score never below zero) is not decided (search is outside both verifiers); positions are identified with 64-bit keys (collisions not excluded); remove_board_from_draw_table needs the exact-text rewrite R5 of its `if let Some(&val)` header (reference pattern -> `Some(__r)` + `let val = *__r;`).',
         'technique': 'Verus contracts on DrawTable over the vstd HashMap model',
     },
     'C14': {
